@@ -504,7 +504,7 @@ func (m *Machine) concretize(t *Term, w int, why string) int64 {
 		r, v := m.solver.check(m.pc, cs, []*Term{t})
 		if r != "sat" {
 			if r == "unknown" {
-				m.stop("inconclusive", "solver unknown while concretizing %s", why)
+				m.stop("inconclusive", "solver unknown while concretizing %s (decisions %v)", why, m.chooses)
 			}
 			break
 		}
